@@ -23,6 +23,7 @@ type c11Conn struct {
 	Inbound   int    `json:"inbound_stanzas"`
 	Outbound  int    `json:"outbound_stanzas"`
 	CutInside bool   `json:"cut_inside_last_stanza"`
+	MidAck    bool   `json:"acknowledged_then_more_sent,omitempty"` // the server acknowledges everything sent so far, the application then sends more, and the <resumed/> that follows the loss repeats that h
 }
 
 type c11Scenario struct {
@@ -58,6 +59,7 @@ func runC11(e *Engine, g G, o RunOpt) RunInfo {
 		c.Inbound = g.Range("inbound", 0, 5)
 		c.Outbound = g.Range("outbound", 0, 3)
 		c.CutInside = g.Bool("cutinside")
+		c.MidAck = g.Pct("mid-ack", 30)
 		sc.Conns = append(sc.Conns, c)
 	}
 	sc.Seg, sc.LatencyNs = netModes(g, e)
@@ -94,7 +96,13 @@ func runC11(e *Engine, g G, o RunOpt) RunInfo {
 			return
 		}
 		msgN := 0
+		sessPrev := 0 // client stanzas the server received on earlier connections of the current stream-managed session
+		lastAckH := 0
 		for ci, c := range sc.Conns {
+			if ci < len(srv.Scripts) {
+				// a server repeats in <resumed/> what it last acknowledged
+				srv.Scripts[ci].ResumedH = lastAckH
+			}
 			before := len(srv.Conns)
 			var jidBefore string
 			var inboundBefore uint
@@ -235,6 +243,27 @@ func runC11(e *Engine, g G, o RunOpt) RunInfo {
 					countKnown = false
 				}
 			}
+			if c.MidAck && conn.Enabled && err == nil {
+				// the server acknowledges everything it has received on the session so far ...
+				e.Sleep(200 * time.Millisecond)
+				if conn.Established == "bound" {
+					sessPrev = 0
+				}
+				k := sessPrev + clientStanzasOnSession(conn)
+				conn.Send(fmt.Sprintf("<a xmlns='%s' h='%d'/>", nsSM, k))
+				lastAckH = k
+				e.Sleep(200 * time.Millisecond)
+				// ... and the application sends more, which stays held across the loss
+				for i := 0; i < 2; i++ {
+					msgN++
+					id := fmt.Sprintf("out%d", msgN)
+					e.Call("Send "+id, func() error {
+						return w.Client.Send(stanza.Message{Attrs: stanza.Attrs{Id: id, To: "peer@" + SimDomain}, Body: "held after the ack"})
+					})
+				}
+				e.Sleep(200 * time.Millisecond)
+				e.Probe("c11.acknowledged_then_more_sent")
+			}
 			// traffic on the established session
 			base := conn.End.TotalWritten
 			var in strings.Builder
@@ -270,6 +299,12 @@ func runC11(e *Engine, g G, o RunOpt) RunInfo {
 			}
 			e.WaitUntilFor("lost", time.Minute, func() bool { return countState(w.Events, xmpp.StateDisconnected) > nd })
 			e.Sleep(time.Second)
+			if conn.Enabled {
+				if conn.Established == "bound" {
+					sessPrev = 0
+				}
+				sessPrev += clientStanzasOnSession(conn)
+			}
 			for _, end := range ends {
 				if base+int64(end) <= cli.TotalRead {
 					modelCount++
@@ -285,4 +320,22 @@ func runC11(e *Engine, g G, o RunOpt) RunInfo {
 		e.Violate("C11", "panic:"+panicSite(p), "%s: %s", p.Where, p.Value)
 	}
 	return info
+}
+
+// clientStanzasOnSession counts the stanzas the server received on this connection as part of
+// the stream-managed session: after <enable/> on a freshly bound connection, after <resume/> on
+// a resumed one.
+func clientStanzasOnSession(c *SrvConn) int {
+	n, on := 0, false
+	for _, r := range c.Elements() {
+		el := r.Item.Elem
+		if el.Is(nsSM, "enable") || el.Is(nsSM, "resume") {
+			on = true
+			continue
+		}
+		if on && (el.Local == "message" || el.Local == "presence" || el.Local == "iq") {
+			n++
+		}
+	}
+	return n
 }
